@@ -1,52 +1,85 @@
 package main
 
-import "strings"
+import (
+	"fmt"
+	"strings"
+)
 
-// rebaseQuant performs the change of variable j = OFF + k in a quantified contract formula, where OFF
-// is the offset of the first slice indexed by k. Afterwards the element terms read (select row j):
-// a trigger without arithmetic, which the solvers' e-matching can instantiate with any ground index
-// term (re-sliced, shifted, copied). Purely a logically equivalent rewriting of the formula.
-func rebaseQuant(bn, rng, body string) (string, string, string) {
+// rebaseQuant performs a change of variable in a quantified contract formula so that element terms
+// become triggers without arithmetic, which e-matching can instantiate with any ground index term
+// (re-sliced, shifted, copied):
+//
+//   - scalar slices: j = OFF + k, elements read (select row j). An exact equivalence.
+//   - slices of structs: r = elem(ARR, OFF + k), fields read (select H r). Equivalent when every k in
+//     the range is a valid array position (0 <= OFF+k < 2^58); that side condition is returned
+//     separately and must be proved when the formula is a goal (it is pure linear arithmetic).
+//
+// Returns the new bound variable, an extra guard, the rewritten range and body, and the side condition
+// ("" if none). kind is "" (no rewriting), "abs" or "ref".
+func rebaseQuant(bn, rng, body string, allowRef bool) (nb, guard, r2, b2, side, kind string) {
 	full := rng + " " + body
 	needle := " " + bn + ")"
 	pos := 0
 	for {
 		i := strings.Index(full[pos:], needle)
 		if i < 0 {
-			return bn, rng, body
+			return bn, "", rng, body, "", ""
 		}
 		i += pos
-		// scan backwards to the opening parenthesis of this application
-		depth := 0
-		j := i
-		for j >= 0 {
-			c := full[j]
-			if c == ')' {
-				depth++
-			} else if c == '(' {
-				if depth == 0 {
-					break
-				}
-				depth--
-			}
-			j--
-		}
+		j := enclosingOpen(full, i)
 		if j >= 0 && strings.HasPrefix(full[j:], "(+ (s_off ") {
 			off := full[j+3 : i]
-			// off must be a single balanced term
 			if balanced(off) {
-				nb := strings.TrimSuffix(bn, "|") + "@abs|"
+				// is this index the second argument of elem(ARR, .)?
+				if e := enclosingOpen(full, j-1); e >= 0 && strings.HasPrefix(full[e:], "(elem ") {
+					if !allowRef {
+						return bn, "", rng, body, "", ""
+					}
+					arr := strings.TrimSpace(full[e+6 : j])
+					if balanced(arr) && arr != "" {
+						nb = strings.TrimSuffix(bn, "|") + "@ref|"
+						sub := "(- (elem_idx " + nb + ") " + off + ")"
+						r2 = strings.ReplaceAll(rng, bn, sub)
+						b2 = strings.ReplaceAll(body, bn, sub)
+						whole := "(elem " + arr + " (+ " + off + " " + sub + "))"
+						r2 = strings.ReplaceAll(r2, whole, nb)
+						b2 = strings.ReplaceAll(b2, whole, nb)
+						guard = fmt.Sprintf("(and (< %s 0) (= (elem_arr %s) %s))", nb, nb, arr)
+						side = fmt.Sprintf("(forall ((%s Int)) (=> %s (and (<= 0 (+ %s %s)) (< (+ %s %s) 288230376151711744) (>= %s 0))))", bn, rng, off, bn, off, bn, arr)
+						return nb, guard, r2, b2, side, "ref"
+					}
+				}
+				nb = strings.TrimSuffix(bn, "|") + "@abs|"
 				sub := "(- " + nb + " " + off + ")"
-				r2 := strings.ReplaceAll(rng, bn, sub)
-				b2 := strings.ReplaceAll(body, bn, sub)
+				r2 = strings.ReplaceAll(rng, bn, sub)
+				b2 = strings.ReplaceAll(body, bn, sub)
 				simpl := "(+ " + off + " " + sub + ")"
 				r2 = strings.ReplaceAll(r2, simpl, nb)
 				b2 = strings.ReplaceAll(b2, simpl, nb)
-				return nb, r2, b2
+				return nb, "", r2, b2, "", "abs"
 			}
 		}
 		pos = i + len(needle)
 	}
+}
+
+// enclosingOpen returns the index of the '(' that opens the application containing position i.
+func enclosingOpen(s string, i int) int {
+	depth := 0
+	for j := i; j >= 0; j-- {
+		switch s[j] {
+		case ')':
+			if j != i {
+				depth++
+			}
+		case '(':
+			if depth == 0 {
+				return j
+			}
+			depth--
+		}
+	}
+	return -1
 }
 
 func balanced(s string) bool {
